@@ -77,6 +77,12 @@ pub fn verif_root() -> PathBuf {
         .unwrap_or_else(|_| PathBuf::from("/verif"))
 }
 
+/// Where evidence and replay artefacts go: /verif, or $VERIF_OUT (used when a seeded change
+/// is being tried, so that committed evidence is not overwritten).
+pub fn out_root() -> PathBuf {
+    std::env::var("VERIF_OUT").map(PathBuf::from).unwrap_or_else(|_| verif_root())
+}
+
 pub fn work_dir() -> PathBuf {
     let p = verif_root().join("work");
     std::fs::create_dir_all(&p).expect("create work dir");
